@@ -1,7 +1,7 @@
 (* C01 — Conditional inclusion matches what a real C preprocessor would do.
    Statements only. *)
 From Coq Require Import List Bool Arith ZArith String.
-From CBI Require Import Lib.Res Model.C01 Spec.C01 Model.C01i Proofs.C01 Proofs.C01i.
+From CBI Require Import Lib.Res Model.C01 Spec.C01 Spec.C01b Model.C01i Proofs.C01 Proofs.C01b Proofs.C01i.
 Import ListNotations.
 Local Open Scope string_scope.
 
@@ -19,6 +19,25 @@ Theorem C01_attribution :
     run_S ST ACT COND mark exec ev (flats ACT COND its) p.
 Proof. exact attribution. Qed.
 Print Assumptions C01_attribution.
+
+(* The structured programs are exactly the line sequences whose conditionals
+   nest: the boolean check [balanced] (every #elif/#else/#endif has an open
+   #if, nothing is left open at end of file - what a preprocessor checks
+   structurally) implies that the sequence is the flattening of an [item] list,
+   so the attribution theorem holds for EVERY balanced sequence of lines. *)
+Theorem C01_balanced_is_structured :
+  forall (ACT COND : Type) (ls : list (line ACT COND)),
+    balanced ACT COND ls = true -> exists its, ls = flats ACT COND its.
+Proof. exact balanced_is_structured. Qed.
+Print Assumptions C01_balanced_is_structured.
+
+Theorem C01_attribution_balanced :
+  forall (ST ACT COND : Type) (mark : nat -> ST -> ST) (exec : ACT -> ST -> res ST)
+         (ev : COND -> ST -> res bool) (ls : list (line ACT COND)) (p : ST),
+    balanced ACT COND ls = true ->
+    run_M ST ACT COND mark exec ev ls p = run_S ST ACT COND mark exec ev ls p.
+Proof. exact attribution_balanced. Qed.
+Print Assumptions C01_attribution_balanced.
 
 (* the tree built from a structured program is the one its nesting denotes *)
 Theorem C01_tree_shape :
@@ -63,4 +82,6 @@ Example C01_nonvacuous :
   option_map (fun p => (rev (marks p), menv p))
     (match run_Si (flats act cond C01_example) {| marks := []; menv := [] |} with Ok p => Some p | Err _ => None end)
   = Some ([0; 1; 3; 4; 5; 6; 7; 9; 10; 12; 14; 15]%nat, [("C", VInt 7); ("A", VInt 2)]).
+Proof. vm_compute. reflexivity. Qed.
+Example C01_nonvacuous_balanced : balanced act cond (flats act cond C01_example) = true.
 Proof. vm_compute. reflexivity. Qed.
